@@ -133,7 +133,7 @@ def check_case(case, info=None):
                     if dk == 'leaf_none':
                         return s + '_none' if leaf else s
                     if dk == 'index':
-                        return s.replace(']', ']{I1}', 1) + ('_I1' if leaf else '')
+                        return s.replace(']', ']{I1}', 1) + ('_I1(I2,_,_,_)' if leaf else '')      # (the bank's form)
                     return (s.replace(']', ']{I2}') + '_none') if leaf else s.replace(']', ']{I1}', 1)
                 variants.append((dk, ja_line(d, tc['tokens'], deco)))
             for name, ln in variants:
